@@ -1362,7 +1362,10 @@ func runC13(r *Run, rng *Rng, tier string) error {
 		r.AddCase(fmt.Sprintf("(S_crlf %s %s)", coqStr(s), coqStr(strings.ReplaceAll(s, "\r\n", "\n"))), map[string]string{"kind": "crlf", "s": s}, strings.Contains(s, "\r\n"))
 	}
 	// adversarial separators
-	for _, sep := range []string{"---", "--- ", "---#", "--- #c", "---x", "--- x", "----", "---\t#c", "--- # a --- b", "---\r", "-- -", "---- #"} {
+	for _, sep := range []string{"---", "--- ", "---#", "--- #c", "---x", "--- x", "----", "---\t#c", "--- # a --- b", "---\r", "-- -", "---- #",
+		// Unicode white space (strings.TrimSpace) and look-alikes that are not white space
+		"---\u00a0# c", "---\u00a0", "---\u2003#x", "---\u3000x", "---\u0085#", "---\xa0#", "---\u1680", "---\u2028#", "---\u205f",
+		"---\u202f x", "--- \u200b#", "---\ufeff#", "---\u2000\u200a\u2029 #c", "---\xe2\x80#", "---\xc2"} {
 		for _, pre := range []string{"", "a: 1", "a: 1\n", "\n"} {
 			for _, post := range []string{"", "b: 2", "b: 2\n", "\n---\nc: 3\n", "---\n"} {
 				splitCase(r, pre+"\n"+sep+"\n"+post, true)
